@@ -57,6 +57,23 @@ Theorem classify_ideal_exact : forall rmatch specs ids,
   exists c sp, In c ids /\ In sp specs /\ match_ideal rmatch sp c = true.
 Proof. exact classify_ideal_spec. Qed.
 
+(** the config-wide oracles [Config.IsSomeSource / IsSomeSink / IsSomeSanitizer / IsSomeValidator /
+    IsSomeBacktracePoint] ([sel] = the role's identifier list): true iff SOME problem accepts, wherever it stands *)
+Theorem is_some_spec : forall rmatch sel cfg c,
+  is_some rmatch sel cfg c = true <-> exists p, In p cfg /\ exists_cid rmatch (sel p) c = true.
+Proof. exact is_some_spec. Qed.
+
+Theorem is_some_position : forall rmatch sel pre p post c,
+  exists_cid rmatch (sel p) c = true -> is_some rmatch sel (pre ++ p :: post) c = true.
+Proof. exact is_some_position. Qed.
+
+(** [taint.IsNodeOfInterest]: an instruction becomes a node of the dataflow graph iff some problem's sources or
+    sinks accept one of its candidates - the per-problem entry-point / sink tests can only find what this admits *)
+Theorem node_of_interest_spec : forall rmatch cfg cands,
+  node_of_interest rmatch cfg cands = true <->
+  exists p, In p cfg /\ (classify rmatch (p_sources p) cands = true \/ classify rmatch (p_sinks p) cands = true).
+Proof. exact node_of_interest_spec. Qed.
+
 (** full statement of the property w.r.t. the callee's identity: [form_independent] - every form classifies as
     [classify_ideal] on [identity callee site].  It does NOT hold for the faithful model, whichever string
     [FindValuePackage] returns: *)
